@@ -13,7 +13,7 @@ def check(tier, seed):
     specs = (specs_evals(tier, algs=("nonhermitian",)) + specs_wiring(tier, algs=("nonhermitian",)) + specs_product(tier) + specs_index(tier)
              + specs_solver(tier) + specs_masks(tier))
     d.add_units(fold_canaries(run_units(specs)))
-    d.add_lean(LEAN)
+    d.add_lean(LEAN + ["PV.Inst.filt", "PV.Inst.blocks", "PV.Inst.unperturbed", "PV.Inst.gapped", "PV.Inst.trivNonHermEqs"])
     d.add_callsite_witness("callsite:nonhermitian/H0-commutes-with-kept-part-of-U'", "bd_battery.py", "nh_finding",
                            "hypothesis of PV.NH.X_comm / main_similarity: H_0 commutes with the kept part of U'. block_diagonalize(hermitian=False) "
                            "does not establish it; the witness problem is replayed on every run")
